@@ -48,14 +48,29 @@ def to_lines(prog, ambient):
     return progs.to_lines(mapped, ambient)
 
 
-def run_model(programs, ambient):
+def run_model(programs, ambient, ident_keys=False):
     lines, spans = [], []
+    pre = 3 if ident_keys else 2
     for p in programs:
         l = to_lines(p, ambient)
+        if ident_keys:
+            l = l[:2] + ['heap identkeys'] + l[2:]
         spans.append((len(lines), len(l)))
         lines += l
     res = common.run_driver(lines)
-    return [res[a + 2:a + k] for a, k in spans]
+    return [res[a + pre:a + k] for a, k in spans]
+
+
+def r3_signature(r, ambient):
+    """signature of finding R3 for a history whose final answers depend on the intermediate observations:
+    the identity-keyed twin of the model (copy lookups keyed by object identity instead of value equality, nothing
+    else changed) gives the SAME final answers with and without the observations, and value equality does change the
+    heap of at least one of the two runs — i.e. the dependence exists only through the conflation of value-equal keys."""
+    t_full, t_bare = run_model([r['full'], r['bare']], ambient, ident_keys=True)
+    nf = len(r['final']) + 1
+    if t_full[-nf:-1] != t_bare[-nf:-1]:
+        return False
+    return stream.value_equality_matters(r['full'], ambient) or stream.value_equality_matters(r['bare'], ambient)
 
 
 def gen_history(rng, cfg):
@@ -204,7 +219,8 @@ def run(tier, seed):
         if differs(r):
             n_diff += 1
             # attribution to R3: the model shows the same difference on the same history (agrees with both runs)
-            # and reports value-equal keys overwritten in a copy lookup only with the observations in place
+            # and either reports value-equal keys overwritten in a copy lookup only with the observations in place
+            # or its identity-keyed twin does not show the difference (r3_signature)
             attributed = None
             if dis is None:
                 try:
@@ -212,7 +228,7 @@ def run(tier, seed):
                 except ValueError:
                     cf = cb = 0
                 for f in findings.open_findings(PROP):
-                    if f['matcher'] == 'value_equal_keys_in_copy_lookup' and cf > cb:
+                    if f['matcher'] == 'value_equal_keys_in_copy_lookup' and (cf > cb or r3_signature(r, ambient)):
                         attributed = f"{f['id']}: {f['what_fails']}"
             if attributed:
                 oc.known_finding(attributed)
